@@ -44,22 +44,60 @@ impl PartialEq for AnnotationData {
 # the tail expression `Ok(())` of a callback: proof hints go right before it, so they do not depend on the text of the statements above
 TAIL_OK = r're:(?m)^ *Ok\(\(\)\)\s*\}\s*\Z'
 
-DS_SPEC = r'''
-impl AnnotationDataSet {
-    /// the reverse index restricted to what it must say, ignoring the data item `except` (if any):
-    ///  sound:    every handle listed under key k is a live data item whose key is k
-    ///  complete: every live data item is listed under its key
-    ///  once:     no handle twice in a row
-    pub open spec fn kd_wf_except(&self, except: Option<int>) -> bool {
-        let kdm = self.key_data_map@;
-        (forall|k: int, j: int| 0 <= k < kdm.len() && 0 <= j < kdm[k].len() ==>
-            live(self.data@, (#[trigger] kdm[k][j]).idx() as int) && self.data@[kdm[k][j].idx() as int].unwrap().key.idx() == k && Some(kdm[k][j].idx() as int) != except)
-        && (forall|i: int| live(self.data@, i) && Some(i) != except ==> {
-            let k = (#[trigger] self.data@[i]).unwrap().key.idx() as int;
-            k < kdm.len() && exists|j: int| 0 <= j < kdm[k].len() && kdm[k][j].idx() == i })
-        && (forall|k: int, j1: int, j2: int| 0 <= k < kdm.len() && 0 <= j1 < j2 < kdm[k].len() ==> (#[trigger] kdm[k][j1]).idx() != (#[trigger] kdm[k][j2]).idx())
+DEDUP_HINT = '''proof {
+            if result is Ok {
+                let d0 = old(self).data@; let d1 = self.data@;
+                assert(d1 =~= d0.push(d1.last()));
+                lemma_kd_push(d0, old(self).key_data_map@, d1.last().unwrap());
+            }
+        }'''
+
+VOCAB_SPEC = r"""
+/// the public id a BuildItem carries, if any
+pub open spec fn bi_text<'a, T: Storable>(b: BuildItem<'a, T>) -> Option<Seq<char>> {
+    match b { BuildItem::Id(s) => Some(s@), BuildItem::IdRef(s) => Some(s@), _ => None }
+}
+/// appending a data item leaves the index exact for everything but the new item
+pub proof fn lemma_kd_push(data: Seq<Option<AnnotationData>>, kdm: Seq<Seq<AnnotationDataHandle>>, item: AnnotationData)
+    requires kd_wf(data, kdm),
+    ensures kd_wf_except(data.push(Some(item)), kdm, Some(data.len() as int)),
+{
+    let d2 = data.push(Some(item));
+    assert forall|k: int, j: int| 0 <= k < kdm.len() && 0 <= j < kdm[k].len() implies
+        live(d2, (#[trigger] kdm[k][j]).idx() as int) && d2[kdm[k][j].idx() as int].unwrap().key.idx() == k && Some(kdm[k][j].idx() as int) != Some(data.len() as int) by {
+        assert(live(data, kdm[k][j].idx() as int));
+        assert(d2[kdm[k][j].idx() as int] == data[kdm[k][j].idx() as int]);
     }
-    pub open spec fn kd_wf(&self) -> bool { self.kd_wf_except(None) }
+    assert forall|i: int| live(d2, i) && Some(i) != Some(data.len() as int) implies ({
+        let k = (#[trigger] d2[i]).unwrap().key.idx() as int;
+        k < kdm.len() && exists|j: int| 0 <= j < kdm[k].len() && kdm[k][j].idx() == i }) by {
+        assert(d2[i] == data[i]);
+        assert(live(data, i));
+    }
+}
+/// some live data item carries this key and an equal value
+pub open spec fn has_pair(data: Seq<Option<AnnotationData>>, key: DataKeyHandle, value: DataValue) -> bool {
+    exists|i: int| live(data, i) && (#[trigger] data[i]).unwrap().key.idx() == key.idx() && veq(data[i].unwrap().value, value)
+}
+"""
+
+DS_SPEC = r'''
+/// the reverse index restricted to what it must say, ignoring the data item `except` (if any):
+///  sound:    every handle listed under key k is a live data item whose key is k
+///  complete: every live data item is listed under its key
+///  once:     no handle twice in a row
+pub open spec fn kd_wf_except(data: Seq<Option<AnnotationData>>, kdm: Seq<Seq<AnnotationDataHandle>>, except: Option<int>) -> bool {
+    (forall|k: int, j: int| 0 <= k < kdm.len() && 0 <= j < kdm[k].len() ==>
+        live(data, (#[trigger] kdm[k][j]).idx() as int) && data[kdm[k][j].idx() as int].unwrap().key.idx() == k && Some(kdm[k][j].idx() as int) != except)
+    && (forall|i: int| live(data, i) && Some(i) != except ==> {
+        let k = (#[trigger] data[i]).unwrap().key.idx() as int;
+        k < kdm.len() && exists|j: int| 0 <= j < kdm[k].len() && kdm[k][j].idx() == i })
+    && (forall|k: int, j1: int, j2: int| 0 <= k < kdm.len() && 0 <= j1 < j2 < kdm[k].len() ==> (#[trigger] kdm[k][j1]).idx() != (#[trigger] kdm[k][j2]).idx())
+}
+pub open spec fn kd_wf(data: Seq<Option<AnnotationData>>, kdm: Seq<Seq<AnnotationDataHandle>>) -> bool { kd_wf_except(data, kdm, None) }
+impl AnnotationDataSet {
+    pub open spec fn kd_wf_except(&self, except: Option<int>) -> bool { kd_wf_except(self.data@, self.key_data_map@, except) }
+    pub open spec fn kd_wf(&self) -> bool { kd_wf(self.data@, self.key_data_map@) }
 }
 '''
 
@@ -191,6 +229,9 @@ def build():
     open spec fn spec_handle(&self) -> Option<DataKeyHandle> { self.intid }
     open spec fn spec_id(&self) -> Option<Seq<char>> { Some(self.id@) }
     open spec fn spec_carries_id() -> bool { true }
+    open spec fn same_content(&self, other: &Self) -> bool { true }
+    proof fn same_content_refl(a: Self) {}
+    proof fn same_content_trans(a: Self, b: Self, c: Self) {}
     #[verifier::external_body]
     fn generate_id(self, idmap: Option<&mut IdMap<DataKeyHandle>>) -> (r: Self) { unimplemented!() }
 ''')
@@ -200,6 +241,10 @@ def build():
     open spec fn spec_handle(&self) -> Option<AnnotationDataHandle> { self.intid }
     open spec fn spec_id(&self) -> Option<Seq<char>> { match self.id { Some(s) => Some(s@), None => None } }
     open spec fn spec_carries_id() -> bool { true }
+    /// a data item's content is its key and its value
+    open spec fn same_content(&self, other: &Self) -> bool { self.key == other.key && self.value == other.value }
+    proof fn same_content_refl(a: Self) {}
+    proof fn same_content_trans(a: Self, b: Self, c: Self) {}
     #[verifier::external_body]
     fn generate_id(self, idmap: Option<&mut IdMap<AnnotationDataHandle>>) -> (r: Self) { unimplemented!() }
 ''')
@@ -222,27 +267,27 @@ def build():
     GET_D = ('R-request', r'self\.get\(handle\)', '<Self as StoreFor<AnnotationData>>::get__handle(self, handle)')
 
     KEY_GHOST = '''
-    type Rest = (Seq<Option<AnnotationData>>, Seq<Seq<AnnotationDataHandle>>);
+    type Rest = (Seq<Option<AnnotationData>>, Seq<Seq<AnnotationDataHandle>>, Map<Seq<char>, AnnotationDataHandle>);
     open spec fn view_store(&self) -> Seq<Option<DataKey>> { self.keys@ }
     open spec fn view_idmap(&self) -> Option<Map<Seq<char>, DataKeyHandle>> { Some(self.key_idmap.data@) }
     open spec fn view_temp_ids(&self) -> bool { self.key_idmap.resolve_temp_ids }
     open spec fn view_config(&self) -> Config { self.config }
-    open spec fn view_rest(&self) -> (Seq<Option<AnnotationData>>, Seq<Seq<AnnotationDataHandle>>) { (self.data@, self.key_data_map@) }
+    open spec fn view_rest(&self) -> (Seq<Option<AnnotationData>>, Seq<Seq<AnnotationDataHandle>>, Map<Seq<char>, AnnotationDataHandle>) { (self.data@, self.key_data_map@, self.data_idmap.data@) }
     open spec fn cascade_free() -> bool { true }
-    open spec fn preinsert_ok(rest: (Seq<Option<AnnotationData>>, Seq<Seq<AnnotationDataHandle>>), item: DataKey) -> bool { true }
-    open spec fn inserted_ok(rest: (Seq<Option<AnnotationData>>, Seq<Seq<AnnotationDataHandle>>), item: DataKey) -> bool { true }
+    open spec fn preinsert_ok(rest: (Seq<Option<AnnotationData>>, Seq<Seq<AnnotationDataHandle>>, Map<Seq<char>, AnnotationDataHandle>), item: DataKey) -> bool { true }
+    open spec fn inserted_ok(rest: (Seq<Option<AnnotationData>>, Seq<Seq<AnnotationDataHandle>>, Map<Seq<char>, AnnotationDataHandle>), item: DataKey) -> bool { true }
     open spec fn preremove_ok(s: Self, handle_idx: usize) -> bool { true }
     /// inserting a key leaves the key -> data index and the data alone
-    open spec fn inserted_post(pre: Self, post: Self, handle: DataKeyHandle, ok: bool) -> bool {
-        ok && post.key_data_map@ == pre.key_data_map@ && post.data@ == pre.data@ && post.data_idmap.data@ == pre.data_idmap.data@
+    open spec fn inserted_post(store: Seq<Option<DataKey>>, pre_rest: (Seq<Option<AnnotationData>>, Seq<Seq<AnnotationDataHandle>>, Map<Seq<char>, AnnotationDataHandle>), post_rest: (Seq<Option<AnnotationData>>, Seq<Seq<AnnotationDataHandle>>, Map<Seq<char>, AnnotationDataHandle>), handle: DataKeyHandle, ok: bool) -> bool {
+        ok && post_rest == pre_rest
     }
     /// removing a key clears exactly its own row: no other row moves (the index is addressed by key handle)
-    open spec fn preremove_post(pre: Self, post: Self, handle: DataKeyHandle, ok: bool) -> bool {
+    open spec fn preremove_post(pre_store: Seq<Option<DataKey>>, pre_rest: (Seq<Option<AnnotationData>>, Seq<Seq<AnnotationDataHandle>>, Map<Seq<char>, AnnotationDataHandle>), post_store: Seq<Option<DataKey>>, post_rest: (Seq<Option<AnnotationData>>, Seq<Seq<AnnotationDataHandle>>, Map<Seq<char>, AnnotationDataHandle>), handle: DataKeyHandle, ok: bool) -> bool {
         ok
-        && (handle.idx() < post.key_data_map@.len() ==> post.key_data_map@[handle.idx() as int].len() == 0)
-        && post.key_data_map@.len() == pre.key_data_map@.len()
-        && (forall|k: int| 0 <= k < post.key_data_map@.len() && k != handle.idx() ==> #[trigger] post.key_data_map@[k] == pre.key_data_map@[k])
-        && post.data@ == pre.data@ && post.data_idmap.data@ == pre.data_idmap.data@
+        && (handle.idx() < post_rest.1.len() ==> post_rest.1[handle.idx() as int].len() == 0)
+        && post_rest.1.len() == pre_rest.1.len()
+        && (forall|k: int| 0 <= k < post_rest.1.len() && k != handle.idx() ==> #[trigger] post_rest.1[k] == pre_rest.1[k])
+        && post_rest.0 == pre_rest.0 && post_rest.2 == pre_rest.2
     }
     #[verifier::external_body]
     fn preinsert(&self, item: &mut DataKey) -> (r: Result<(), StamError>) { Ok(()) }
@@ -258,26 +303,26 @@ def build():
     u.trusted.append('default StoreCallbacks::preinsert (body `Ok(())`) re-declared external_body in the dataset impls')
 
     DATA_GHOST = '''
-    type Rest = (Seq<Option<DataKey>>, Seq<Seq<AnnotationDataHandle>>);
+    type Rest = (Seq<Option<DataKey>>, Seq<Seq<AnnotationDataHandle>>, Map<Seq<char>, DataKeyHandle>);
     open spec fn view_store(&self) -> Seq<Option<AnnotationData>> { self.data@ }
     open spec fn view_idmap(&self) -> Option<Map<Seq<char>, AnnotationDataHandle>> { Some(self.data_idmap.data@) }
     open spec fn view_temp_ids(&self) -> bool { self.data_idmap.resolve_temp_ids }
     open spec fn view_config(&self) -> Config { self.config }
-    open spec fn view_rest(&self) -> (Seq<Option<DataKey>>, Seq<Seq<AnnotationDataHandle>>) { (self.keys@, self.key_data_map@) }
+    open spec fn view_rest(&self) -> (Seq<Option<DataKey>>, Seq<Seq<AnnotationDataHandle>>, Map<Seq<char>, DataKeyHandle>) { (self.keys@, self.key_data_map@, self.key_idmap.data@) }
     open spec fn cascade_free() -> bool { true }
-    open spec fn preinsert_ok(rest: (Seq<Option<DataKey>>, Seq<Seq<AnnotationDataHandle>>), item: AnnotationData) -> bool { true }
-    open spec fn inserted_ok(rest: (Seq<Option<DataKey>>, Seq<Seq<AnnotationDataHandle>>), item: AnnotationData) -> bool { true }
+    open spec fn preinsert_ok(rest: (Seq<Option<DataKey>>, Seq<Seq<AnnotationDataHandle>>, Map<Seq<char>, DataKeyHandle>), item: AnnotationData) -> bool { true }
+    open spec fn inserted_ok(rest: (Seq<Option<DataKey>>, Seq<Seq<AnnotationDataHandle>>, Map<Seq<char>, DataKeyHandle>), item: AnnotationData) -> bool { true }
     open spec fn preremove_ok(s: Self, handle_idx: usize) -> bool { live(s.data@, handle_idx as int) }
     /// after a data item has been pushed, `inserted` lists it under its key: the index is complete again
-    open spec fn inserted_post(pre: Self, post: Self, handle: AnnotationDataHandle, ok: bool) -> bool {
+    open spec fn inserted_post(store: Seq<Option<AnnotationData>>, pre_rest: (Seq<Option<DataKey>>, Seq<Seq<AnnotationDataHandle>>, Map<Seq<char>, DataKeyHandle>), post_rest: (Seq<Option<DataKey>>, Seq<Seq<AnnotationDataHandle>>, Map<Seq<char>, DataKeyHandle>), handle: AnnotationDataHandle, ok: bool) -> bool {
         ok
-        && (pre.kd_wf_except(Some(handle.idx() as int)) && pre.data@[handle.idx() as int].unwrap().spec_handle() == Some(handle) ==> post.kd_wf())
-        && post.keys@ == pre.keys@ && post.key_idmap.data@ == pre.key_idmap.data@
+        && (kd_wf_except(store, pre_rest.1, Some(handle.idx() as int)) && store[handle.idx() as int].unwrap().spec_handle() == Some(handle) ==> kd_wf(store, post_rest.1))
+        && post_rest.0 == pre_rest.0 && post_rest.2 == pre_rest.2
     }
     /// before a data item is tombstoned, `preremove` drops exactly that item from the index
-    open spec fn preremove_post(pre: Self, post: Self, handle: AnnotationDataHandle, ok: bool) -> bool {
-        (ok && pre.kd_wf() ==> post.kd_wf_except(Some(handle.idx() as int)))
-        && post.keys@ == pre.keys@ && post.key_idmap.data@ == pre.key_idmap.data@
+    open spec fn preremove_post(pre_store: Seq<Option<AnnotationData>>, pre_rest: (Seq<Option<DataKey>>, Seq<Seq<AnnotationDataHandle>>, Map<Seq<char>, DataKeyHandle>), post_store: Seq<Option<AnnotationData>>, post_rest: (Seq<Option<DataKey>>, Seq<Seq<AnnotationDataHandle>>, Map<Seq<char>, DataKeyHandle>), handle: AnnotationDataHandle, ok: bool) -> bool {
+        (ok && kd_wf(pre_store, pre_rest.1) ==> kd_wf_except(post_store, post_rest.1, Some(handle.idx() as int)))
+        && post_rest.0 == pre_rest.0 && post_rest.2 == pre_rest.2
     }
     #[verifier::external_body]
     fn preinsert(&self, item: &mut AnnotationData) -> (r: Result<(), StamError>) { Ok(()) }
@@ -292,4 +337,58 @@ def build():
         Fn('preremove', props=P, ret='r', from_block=CB_D, rewrites=[MARK, GET_D],
            before=[(TAIL_OK, REM_HINT)]),
     ], extra=DATA_GHOST)
+    # ------------------------------------------------------------------ the vocabulary: data_by_value and the de-duplicating tail of insert_data (C10)
+    P10 = ['C10']
+    ST = sc.ST
+    u.item(ST, 'enum', 'BuildItem', keep_derives=[])
+    u.spec(VOCAB_SPEC, 'contracts/u_dataset.py:VOCAB_SPEC')
+    u.impl(ST, "impl<'a, T> BuildItem<'a, T>", [
+        Fn('is_none', props=P10, ret='r', ensures=[('none', 'r == (*self is None)')]),
+        Fn('to_string', props=P10, ret='r', ensures=[('text', 'match r { Some(t) => bi_text(self) == Some(t@), None => bi_text(self) is None }')]),
+    ])
+    u.impl('src/annotationdata.rs', 'impl AnnotationData', [
+        Fn('new', props=P10, ret='r', ensures=[('fields', 'r.id == id && r.key == key && r.value == value && r.intid is None')]),
+    ])
+    KEYS_WF = 'idmap_wf(self.keys@, Some(self.key_idmap.data@))'
+    u.impl(DS, 'impl AnnotationDataSet', [
+        Fn('key', emit_name='key__handle', props=P10, ret='r',
+           sig_rewrites=[('R-request', r'key: impl Request<DataKey>', 'key: DataKeyHandle')],
+           rewrites=[('R-request', r'self\.get\(key\)\.map\(\|x\| x\)\.ok\(\)', '<Self as StoreFor<DataKey>>::get__handle(self, key).ok()')],
+           ensures=[('some_iff', 'r is Some <==> live(self.keys@, key.idx() as int)'),
+                    ('item', 'r is Some ==> *r.unwrap() == self.keys@[key.idx() as int].unwrap()')]),
+        Fn('data_by_value', emit_name='data_by_value__handle', props=P10, ret='r',
+           sig_rewrites=[('R-request', r'key: impl Request<DataKey>,', 'key: DataKeyHandle,')],
+           rewrites=[('R-request', r'self\.key\(key\)\.map\(\|key\| key\)', 'self.key__handle(key)'),
+                     ('R-expect', r'\.expect\("key must be bound at this point"\)', '.unwrap()'),
+                     ('R-forname', r'for datahandle in dataitems\.iter\(\) \{', 'for datahandle in vx_it: dataitems.iter() {'),
+                     ('R-request', r'self\.get\(\*datahandle\)\.expect\("getting item"\)', '<Self as StoreFor<AnnotationData>>::get__handle(self, *datahandle).unwrap()')],
+           requires=[('kd_wf', 'self.kd_wf()'), ('keys_wf', KEYS_WF)],
+           loops={r'vx_it: dataitems': dict(invariant=[
+               ('kd_wf', 'self.kd_wf()'),
+               ('row', 'dataitems@ == self.key_data_map@[key.idx() as int] && key.idx() < self.key_data_map@.len()'),
+               ('none_so_far', 'forall|j: int| 0 <= j < vx_it.index@ ==> !veq(self.data@[(#[trigger] dataitems@[j]).idx() as int].unwrap().value, *value)'),
+           ])},
+           ensures=[('found', 'r is Some ==> has_pair(self.data@, key, *value) && exists|i: int| live(self.data@, i) && self.data@[i].unwrap() == *r.unwrap() && r.unwrap().key.idx() == key.idx() && veq(r.unwrap().value, *value)'),
+                    ('none', 'r is None && live(self.keys@, key.idx() as int) ==> !has_pair(self.data@, key, *value)')]),
+        Fn('insert_data', emit_name='insert_data__dedup', props=P10, ret='r',
+           region=('after:let value = value.into();', r're:(?m)^ *result\s*\}\s*\Z',
+                   "fn insert_data__dedup<'a>(&mut self, id: BuildItem<'a, AnnotationData>, datakey_handle: DataKeyHandle, value: DataValue, newkey: bool, safety: bool) -> Result<AnnotationDataHandle, StamError>",
+                   '        result'),
+           rewrites=[('R-request', r'self\.data_by_value\(datakey_handle, &value\)', 'self.data_by_value__handle(datakey_handle, &value)'),
+                     ('R-expect', r'\.expect\("item must have intid if in store"\)', '.unwrap()')],
+           after=[(r're:let result = self\.insert\([^;]*;', DEDUP_HINT, None, 'index_exact')],
+           requires=[('kd_wf', 'old(self).kd_wf()'),
+                     ('keys_wf', KEYS_WF.replace('self.', 'old(self).')),
+                     ('data_wf', 'idmap_wf(old(self).data@, Some(old(self).data_idmap.data@))'),
+                     ('key_live', 'live(old(self).keys@, datakey_handle.idx() as int)'),
+                     ('fits', 'old(self).data@.len() < AnnotationDataHandle::hmax()'),
+                     ('id_free', 'bi_text(id) is Some ==> !is_temp_form::<AnnotationData>(old(self).data_idmap.resolve_temp_ids, bi_text(id).unwrap()) && !old(self).data_idmap.data@.contains_key(bi_text(id).unwrap())')],
+           ensures=[('reuses', '!newkey && id is None && safety && has_pair(old(self).data@, datakey_handle, value) ==> '
+                               'r is Ok && final(self).data@ == old(self).data@ && final(self).key_data_map@ == old(self).key_data_map@ && final(self).data_idmap.data@ == old(self).data_idmap.data@ '
+                               '&& live(old(self).data@, r->Ok_0.idx() as int) && old(self).data@[r->Ok_0.idx() as int].unwrap().key.idx() == datakey_handle.idx() && veq(old(self).data@[r->Ok_0.idx() as int].unwrap().value, value)'),
+                    ('appends_the_pair', 'r is Ok && final(self).data@ != old(self).data@ ==> final(self).data@.len() == old(self).data@.len() + 1 && final(self).data@.take(old(self).data@.len() as int) =~= old(self).data@ '
+                                         '&& r->Ok_0.idx() == old(self).data@.len() && final(self).data@.last() is Some && final(self).data@.last().unwrap().key == datakey_handle && final(self).data@.last().unwrap().value == value'),
+                    ('index_exact', 'r is Ok ==> final(self).kd_wf()'),
+                    ('keys_frame', 'r is Ok ==> final(self).keys@ == old(self).keys@')]),
+    ])
     return u
